@@ -672,8 +672,15 @@ SmsInner ==
                root |-> <<>>, file |-> <<>>, dbg |-> <<>>]>>,
    osrc |-> <<InnerX>>, remove |-> FALSE]
 
+(* the same without an explicit original source: the text of the inner     *)
+(* source is the outer map's sourcesContent entry, and the inner map still  *)
+(* applies                                                                  *)
+SmsInnerFromContent ==
+  [SmsInner EXCEPT !.osrc = <<>>, !.map.contents = <<InnerX, ContentA>>]
+
 BaseTrees ==
-  {Raw("str", <<cA, cB>>), Raw("buf", <<cA, cB>>), Raw("rawstr", <<cA, cB>>),
+  {SmsInnerFromContent, CC(<<Raw("str", <<cA>>), Cached(SmsInnerFromContent)>>),
+   Raw("str", <<cA, cB>>), Raw("buf", <<cA, cB>>), Raw("rawstr", <<cA, cB>>),
    Raw("rawbuf", <<cA, cB>>), Raw("rawbuf", <<255, cA>>), Orig(<<cA, cSC, NL, cB>>), SmsA, SmsInner,
    CC(<<Orig(<<cA>>), Raw("str", <<cB>>), SmsB>>),
    Replace(Orig(<<cA, cA, cSC, NL, cA>>),
@@ -717,7 +724,7 @@ Edits(t) ==
          \cup {[t EXCEPT !.map = e] : e \in MapEdits(t.map)}
          \cup (IF t.inner = <<>> THEN {}
                ELSE {[t EXCEPT !.inner = <<e>>] : e \in MapEdits(t.inner[1])}
-                    \cup {[t EXCEPT !.osrc = <<@[1] \o <<cX>>>>],
+                    \cup {[t EXCEPT !.osrc = IF @ = <<>> THEN <<<<cX>>>> ELSE <<@[1] \o <<cX>>>>],
                           [t EXCEPT !.remove = ~@]})
     [] t.k = "concat" ->
          {[t EXCEPT !.ch = RemoveAt(@, i)] : i \in 1..Len(t.ch)}
